@@ -268,6 +268,12 @@ func (e *Srv) Authorize(a refenc.Auth) (int, []byte, error) {
 	return e.Post("/api/v1/authorize-equipment", a.JSON())
 }
 
+// AuthorizeSparse posts the same authorization as an equivalent JSON body
+// (zero-valued members absent, other member order, white space).
+func (e *Srv) AuthorizeSparse(a refenc.Auth) (int, []byte, error) {
+	return e.Post("/api/v1/authorize-equipment", a.SparseJSON())
+}
+
 func (e *Srv) PostServer(s refenc.AuthServer) (int, []byte, error) {
 	return e.Post("/api/v1/authorized-servers", s.JSON())
 }
